@@ -121,9 +121,25 @@ def match_known(prop, v, findings):
 _WORKER_FN = None
 
 
-def _pool_init(fn_module, fn_name, initargs):
+def _pin_worker():
+    """pin this worker process (and the server threads it will create) to ONE
+    core: the harness/server-thread baton hand-off is 5x slower and very
+    erratic when the two threads of a worker are scheduled on different
+    cores of this VM."""
+    try:
+        cpus = sorted(os.sched_getaffinity(0))
+        ident = multiprocessing.current_process()._identity
+        idx = (ident[0] - 1) if ident else 0
+        os.sched_setaffinity(0, {cpus[idx % len(cpus)]})
+    except Exception:
+        pass
+
+
+def _pool_init(fn_module, fn_name, initargs, pin=True):
     global _WORKER_FN
     import importlib
+    if pin:
+        _pin_worker()
     mod = importlib.import_module(fn_module)
     init = getattr(mod, fn_name + "_init", None)
     if init is not None:
@@ -150,7 +166,7 @@ def pmap(fn_module, fn_name, items, initargs=(), jobs=None, chunksize=1):
     items = list(items)
     jobs = jobs or ncpu()
     if jobs <= 1 or len(items) <= 1:
-        _pool_init(fn_module, fn_name, initargs)
+        _pool_init(fn_module, fn_name, initargs, pin=False)
         return [_pool_call(a) for a in items]
     ctx = multiprocessing.get_context("fork")
     with ctx.Pool(min(jobs, len(items)), initializer=_pool_init,
